@@ -363,7 +363,7 @@ def fam_meta(ctx):
     from sc3.synth import spec as spc
     dflt = ctx.real('spec_default')
     p1 = Param(ctx, 'p1', KINDS[0], 1)
-    rec = {'mode': 'nrt', 'names': ['spec_default', 'p1_d']}
+    rec = {'mode': 'nrt', 'names': ['spec_default', 'p1_d', 'spec_default_p1']}
     data = _mk('meta', rec)
     received = {}
     fn = make_func(['p0', 'pz', 'p1'], [None, None, p1.default], [None, None, None],
@@ -371,8 +371,12 @@ def fam_meta(ctx):
 
     class Spec:
         default = dflt
+
+    class Spec1:
+        # a spec for a parameter that HAS a default of its own (any value, zero included): the spec must not win
+        default = ctx.real('spec_default_p1')
     try:
-        sd, b = sdsym.build_bytes('mt', fn, metadata={'specs': {'p0': Spec()}})
+        sd, b = sdsym.build_bytes('mt', fn, metadata={'specs': {'p0': Spec(), 'p1': Spec1()}})
     except (PathAbort, Inconclusive, Violation):
         raise
     except Exception as e:
